@@ -78,7 +78,53 @@ class CondFlow:
                 if n:
                     self.deps[n] = _paths(c)
                     facts = frozenset(set(facts) | {n})
+                # a bool local declared in this very block and branched on: `const bool ok = a && b && c; if (!ok) ... else
+                # <here a, b and c hold>` (and dually for a disjunction on the false edge)
+                for n2, dep in self._flag_facts(blk, c, when == "true"):
+                    self.deps[n2] = dep
+                    facts = frozenset(set(facts) | {n2})
         return facts
+
+    def _flag_facts(self, blk, c, truth):
+        e = X.strip(c)
+        while isinstance(e, dict) and e.get("k") == "un" and e.get("op") == "!":
+            truth = not truth
+            e = X.strip(e["e"])
+        if not (isinstance(e, dict) and e.get("k") == "ref" and e.get("kind") == "local"):
+            return []
+        init, pos = None, None
+        for i, s in enumerate(blk["stmts"]):
+            if s["k"] == "decl":
+                for v in s["vars"]:
+                    if v["id"] == e.get("id") and v.get("init") is not None and (v.get("ty") or "").replace("const ", "") == "bool":
+                        init, pos = v["init"], i
+        if init is None:
+            return []
+        # nothing after the declaration may write what the initialiser reads
+        later = set()
+        for s in blk["stmts"][pos + 1:]:
+            later |= kills(list(X.stmt_nodes(s, local=True)))
+        parts = []
+
+        def split(x, op):
+            x0 = X.strip(x)
+            if isinstance(x0, dict) and x0.get("k") == "bin" and x0.get("op") == op:
+                split(x0["l"], op)
+                split(x0["r"], op)
+            else:
+                parts.append(x0)
+        split(init, "&&" if truth else "||")
+        if len(parts) == 1 and not truth:
+            pass
+        out = []
+        for part in parts:
+            ps = _paths(part)
+            if any(p == d or p.startswith(d + ".") or d.startswith(p + ".") for p in ps for d in later):
+                continue
+            n2 = cmp_norm(part, truth)
+            if n2:
+                out.append((n2, ps))
+        return out
 
     def _solve(self):
         entry = self.f["entry"]
